@@ -33,6 +33,24 @@ func (p *pg) genC12() (Config, Plan) {
 			}
 		}
 		c.SegSize = []int{4096, 65536, 1 << 20}[p.r.Intn(3)]
+		// the buffer hand-back of a two-read (> 64 KiB) GetLog is only interesting
+		// when another reader starts a read inside it: at least two readers, and in
+		// half of the runs no stickiness and mostly large entries
+		if c.Readers < 2 {
+			c.Readers = 2 + p.r.Intn(3)
+		}
+		if p.r.Intn(2) == 0 {
+			c.StickNum, c.StickDen = 0, 0
+			for i := range plan.Ops {
+				if plan.Ops[i].Kind == "append" {
+					for j := range plan.Ops[i].Sizes {
+						if p.r.Intn(2) == 0 {
+							plan.Ops[i].Sizes[j] = 66000 + p.r.Intn(8000)
+						}
+					}
+				}
+			}
+		}
 		return c, plan
 	}
 	c := p.baseConfig("C12")
